@@ -271,6 +271,7 @@ func runC08(run *Run, replay string) {
 	}
 	ctx := context.Background()
 	matchWalkCases(run, rand.New(rand.NewSource(subSeed(run.Res.Seed, 515151))), n*6)
+	operandSymmetryOracle(run, rand.New(rand.NewSource(subSeed(run.Res.Seed, 616161))), n*2)
 	for i := 0; i < n; i++ {
 		r := rand.New(rand.NewSource(subSeed(run.Res.Seed, i)))
 		sc, cfg := tfScenario(r)
